@@ -182,6 +182,8 @@ def main_check(pid, tier):
             else:
                 extra[k] = v
 
+    if hasattr(chk, "post_merge"):
+        chk.post_merge(counters, extra)
     known = load_known()
     new_viol, known_hit = [], {}
     for w in violations:
